@@ -22,7 +22,7 @@ const MV: [(&str, Ver); 11] = [
 ];
 const REQ_CONN: [&[&[u8]]; 5] = [&[], &[b"close"], &[b"keep-alive"], &[b"keep-alive", b"close"], &[b"abcde"]];
 const HS: [&str; 5] = ["none", "got-100", "gave-up", "refused-bare", "refused-with-fields"];
-const STATUS: [u16; 5] = [200, 302, 404, 307, 102];
+const STATUS: [u16; 6] = [200, 302, 404, 307, 102, 417];
 const FRAMING: [&str; 4] = ["length-3", "chunked", "bare", "length-0"];
 const RESP_CONN: [&[&[u8]]; 6] = [&[], &[b"close"], &[b"keep-alive"], &[b"keep-alive", b"close"], &[b"close", b"keep-alive"], &[b"xxxxx"]];
 
@@ -125,7 +125,7 @@ fn cell(idx: u64, seed: u64, variant: u64, rec: &mut Rec) {
     let req_conn = REQ_CONN[take(5)];
     let hs = HS[take(5)];
     let http10_resp = take(2) == 1;
-    let status = STATUS[take(5)];
+    let status = STATUS[take(STATUS.len())];
     let framing = FRAMING[take(4)];
     let resp_conn = RESP_CONN[take(6)];
     let unsolicited = take(2);
@@ -333,14 +333,14 @@ fn partial_redirect_cell(idx: u64, rec: &mut Rec) {
     }
 }
 
-const CELLS: u64 = 11 * 5 * 5 * 2 * 5 * 4 * 6 * 2;
+const CELLS: u64 = 11 * 5 * 5 * 2 * 6 * 4 * 6 * 2;
 
 impl Property for P {
     fn id(&self) -> &'static str {
         "C10"
     }
     fn rule(&self) -> String {
-        "exhaustive product realising the five close conditions: (method, request version) x request Connection {absent, close, keep-alive, two fields, some other token} x Expect handshake {none, 100 received, gave up, refused bare, refused with fields} x response version x status {200, 302, 404, 307, 102} x framing {length, chunked, bare, zero length} x response Connection {absent, close, keep-alive, two fields either order, some other token} x {no, one} unsolicited 100 Continue in front of the final response; every cell is a full exchange driven to Cleanup (through Redirect for 3xx), once with one-shot I/O and again under random segmentation schedules; must_close_connection()/close_reason() at Redirect and Cleanup are compared with the disjunction computed from the description. Methods: GET/HEAD/DELETE/POST/PUT/CONNECT/OPTIONS/PATCH; a third of the cells add an unrelated header through Flow::header() in Prepare. class = condition bit-vector x exit path.".into()
+        "exhaustive product realising the five close conditions: (method, request version) x request Connection {absent, close, keep-alive, two fields, some other token} x Expect handshake {none, 100 received, gave up, refused bare, refused with fields} x response version x status {200, 302, 404, 307, 102, 417} x framing {length, chunked, bare, zero length} x response Connection {absent, close, keep-alive, two fields either order, some other token} x {no, one} unsolicited 100 Continue in front of the final response; every cell is a full exchange driven to Cleanup (through Redirect for 3xx), once with one-shot I/O and again under random segmentation schedules; must_close_connection()/close_reason() at Redirect and Cleanup are compared with the disjunction computed from the description. Methods: GET/HEAD/DELETE/POST/PUT/CONNECT/OPTIONS/PATCH; a third of the cells add an unrelated header through Flow::header() in Prepare. class = condition bit-vector x exit path.".into()
     }
     fn assumptions(&self) -> Vec<String> {
         vec![
